@@ -35,6 +35,7 @@ def tasks(tier, seed):
     for part in range(4):
         out.append({'kind': 'code_pairs', 'part': part})
     out.append({'kind': 'trunc'})
+    out.append({'kind': 'oddparams'})
     for a in range(len(TOKENS)):
         out.append({'kind': 'tok_long', 'first': a})
     for a in range(len(TOKENS)):
@@ -160,6 +161,21 @@ def run_task(task, acc):
                         acc.current = {'raw': raw, 'cls': 'AnsiString'}
                         amb, n = run_raw(raw, acc, ('AnsiString', 'AnsiStr'))
                         acc.nontrivial_count += 1
+        return
+    if k == 'oddparams':
+        # parameters that are no plain decimal numbers (signs, huge values, fractions, spaces, non-ASCII digits): whatever they
+        # mean to a terminal, the text must survive and nothing may raise; where the reference reading is unambiguous the style
+        # is compared as well
+        odd = ['-1', '-22', '-108', '-200', '-0', '+1', '1.5', '1e1', ' 1', '1 ', '0x1f', '\u0663', '999', '1000', '99999999999999999999',
+               '256', '1;-1', '-1;1', '38;5;-1', '38;2;1;-2;3', '38;-5;1', ';-1;']
+        for ctx in ('', E + '[41;1mA', E + '[31mA' + E + '[4mB'):
+            for p_ in odd:
+                for raw in (ctx + E + '[' + p_ + 'mX', ctx + E + '[' + p_ + 'mX' + E + '[mY', ctx + E + '[7;' + p_ + 'mX'):
+                    acc.state_count += 1
+                    acc.transitions += 1
+                    acc.current = {'raw': raw, 'cls': 'AnsiString'}
+                    amb, n = run_raw(raw, acc, ('AnsiString', 'AnsiStr', 'reuse'))
+                    acc.nontrivial_count += 1
         return
     if k == 'code_pairs':
         # every ordered pair of known single codes (all effect groups, set and clear codes): one sequence, two sequences
